@@ -90,6 +90,35 @@ class Ctx:
         except Exception:
             return {}
 
+    def miri_record(self, part, timeout=2400):
+        """Run the harness's small sample driver under Miri (cargo +nightly miri run): undefined behaviour in the
+        code under test aborts the interpreter. Returns the trace file; raises Violation on UB."""
+        outp = "%s/miri-%s.ndjson" % (self.work, part)
+        logp = "%s/miri-%s.log" % (self.work, part)
+        t = time.time()
+        env = dict(os.environ, MIRIFLAGS="-Zmiri-disable-isolation", CARGO_NET_OFFLINE="true")
+        cmd = ["cargo", "+nightly", "miri", "run", "--offline", "--target-dir", "target/miri", "--", "record", "miri",
+               "--part", part, "--seed", str(self.seed), "--out", outp]
+        try:
+            r = subprocess.run(cmd, cwd=HARNESS, env=env, stdout=subprocess.PIPE, stderr=subprocess.STDOUT, text=True,
+                               timeout=timeout)
+        except subprocess.TimeoutExpired:
+            raise ToolError("miri run (%s) timed out" % part)
+        with open(logp, "w") as f:
+            f.write(r.stdout)
+        if r.returncode != 0:
+            if "Undefined Behavior" in r.stdout or "unsupported operation" not in r.stdout and "error: " in r.stdout and "Miri" in r.stdout:
+                d = "%s/replays/%s" % (VERIF, self.prop)
+                os.makedirs(d, exist_ok=True)
+                p = "%s/%d-miri.log" % (d, int(time.time()))
+                shutil.copy(logp, p)
+                raise Violation(self.prop, "Miri aborted the run (undefined behaviour) in part %s" % part, p)
+            log(r.stdout[-3000:])
+            raise ToolError("miri run (%s) failed" % part)
+        self.steps.append("Miri: harness sample driver part %s executed under the interpreter without UB, %.0fs" % (
+            part, time.time() - t))
+        return outp
+
     # ---------------------------------------------------------------- TLC
     def _java(self, name, extra_props=()):
         wd = "%s/%s" % (self.work, name)
